@@ -73,8 +73,10 @@ def core_program(rng, depth=4):
                 fi, pi = rng.choice(ints)
                 return f"{enc(pi)}ㅇ{enc(fi)}"
             return enc(rng.randint(-9, 30))
-        if c < 0.4:
+        if c < 0.33:
             return f"({gint(d - 1, scope)} {gint(d - 1, scope)} ㄷㅎㄷ)"
+        if c < 0.4:
+            return f"({gint(d - 1, scope)} {gint(d - 1, scope)} ㄱㅎㄷ)"
         if c < 0.55:
             return f"({gint(d - 1, scope)} {gint(d - 1, scope)} {gbool(d - 1, scope)} ㅎㄷ)"
         if c < 0.7 and ints:      # computed position: (p + 0) selects parameter p of that frame
@@ -94,8 +96,10 @@ def core_program(rng, depth=4):
                 fi, pi = rng.choice(bools)
                 return f"{enc(pi)}ㅇ{enc(fi)}"
             return rng.choice(["(ㅈㅈㅎㄱ)", "(ㄱㅈㅎㄱ)"])
-        if c < 0.7:
+        if c < 0.55:
             return f"({gint(d - 1, scope)} {gint(d - 1, scope)} ㄴㅎㄷ)"
+        if c < 0.7:
+            return f"({gint(d - 1, scope)} {gint(d - 1, scope)} ㅈㅎㄷ)"
         return f"({gbool(d - 1, scope)} {gbool(d - 1, scope)} {gbool(d - 1, scope)} ㅎㄷ)"
     return gint(depth, []) if rng.random() < 0.8 else gbool(depth, [])
 
